@@ -795,6 +795,13 @@ func (c *FnCtx) assumeFieldInv(x *ssa.UnOp, l *Loc, v Val) {
 	if fi == nil {
 		return
 	}
+	if fa, ok := x.X.(*ssa.FieldAddr); ok {
+		for _, pi := range c.pendingInv {
+			if pi.alloc == fa.X && pi.field == fa.Field {
+				return // object under construction: the invariant is re-established before its scope ends (checked there)
+			}
+		}
+	}
 	env := &SEnv{c: c, st: c.cur, old: c.entry, vars: map[string]Val{"v": v}, bound: map[string]bool{}}
 	c.assume(c.curItems, env.trAssume(fi.E))
 	c.note("field invariant " + fi.Type + "." + fi.Field + ": " + fi.Text)
@@ -805,8 +812,17 @@ func (c *FnCtx) checkFieldInv(x *ssa.Store, l *Loc, v Val) {
 	if fi == nil {
 		return
 	}
-	if fa := x.Addr.(*ssa.FieldAddr); !c.V.ModPkgs[pkgOfType(derefType(fa.X.Type()))] {
+	fa := x.Addr.(*ssa.FieldAddr)
+	if !c.V.ModPkgs[pkgOfType(derefType(fa.X.Type()))] {
 		return
+	}
+	// make-then-fill on an object allocated here (not yet published): the invariant of the field is
+	// checked where control leaves the scope of the allocation (and at returns inside it)
+	if al, ok := fa.X.(*ssa.Alloc); ok && al.Heap {
+		if _, isMake := x.Val.(*ssa.MakeSlice); isMake {
+			c.pendingInv = append(c.pendingInv, pendInv{al, fa.Field, fi, l})
+			return
+		}
 	}
 	env := &SEnv{c: c, st: c.cur, old: c.entry, vars: map[string]Val{"v": v}, bound: map[string]bool{}}
 	ob := c.assert(c.curItems, "fieldinv", "fieldinv", fi.Type+"."+fi.Field, env.trGoal(fi.E), x, nil, true)
@@ -1060,4 +1076,19 @@ func (c *FnCtx) declaredMods() map[string][]Expr {
 		}
 	}
 	return declared
+}
+
+type pendInv struct {
+	alloc ssa.Value
+	field int
+	fi    *FieldInv
+	loc   *Loc
+}
+
+// pendingInvFormula evaluates the invariant of a field of an object under construction on the field's
+// current value.
+func (c *FnCtx) pendingInvFormula(st *State, pi pendInv) string {
+	v := c.loadLoc(st, pi.loc)
+	env := &SEnv{c: c, st: st, old: c.entry, vars: map[string]Val{"v": v}, bound: map[string]bool{}}
+	return env.trGoal(pi.fi.E)
 }
